@@ -532,8 +532,8 @@ def load_corpus():
 def correspondence(ctx):
     res = CorrResult()
     rng = ctx.rng
-    n_pairs = ctx.n(2000, 40000)
-    per_pair = ctx.n(9, 12)
+    n_pairs = ctx.n(2000, 24000)
+    per_pair = ctx.n(9, 10)
     n_wild = ctx.n(300, 6000)
     configs = all_configs()
     pairs = []       # (v, e, [(style, mode, n, out)], kind)
@@ -589,8 +589,7 @@ def correspondence(ctx):
     n_small = 0
     for v, e in small_scope(ctx.n(23, 1)):
         cfgs = [(s, m, n) for s in STYLES for m in MODES for n in (1, 2, 3)]
-        if ctx.quick:
-            cfgs = rng.sample(cfgs, 6)
+        cfgs = rng.sample(cfgs, 6 if ctx.quick else 15)
         add(v, e, cfgs, "small-scope")
         n_small += 1
     for _ in range(n_wild):
@@ -684,12 +683,12 @@ def correspondence(ctx):
     res.extra["near_tie_samples"] = near_samples
     res.extra["skipped_more_than_12_digits"] = skipped
     res.extra["small_scope_pairs"] = n_small
-    res.extra["small_scope_exhaustive"] = not ctx.quick
+    res.extra["small_scope_all_pairs"] = not ctx.quick
     res.rule = ("pairs (value, uncertainty) = decimal mantissas of <= 12 digits x 10^k, k in [-12, 12], biased to carry cases "
                 "(9.5.., 9.96.., 0.95.., 99.5), ties, exact powers of ten, zeros, negatives, 70% with the uncertainty -2..9 decades "
                 "below the value; each printed under {} of the 54 configurations (3 styles x 3 modes x n in 1..6) through "
                 "str(Measurement) / repr, str(MeasurementArray) or get_printer(); plus the small scope v = m/100, m in [-50, 1100] x 12 uncertainties "
-                "around the carries (stride 1 = exhaustive in the thorough tier), the deterministic powers-of-ten sub-stream (for every "
+                "around the carries (every pair in the thorough tier, under 15 of its 27 configurations; stride 23 and 6 configurations when quick), the deterministic powers-of-ten sub-stream (for every "
                 "k in [-12, 12] the reference number is exactly 10^k -- uncertainty in automatic / error mode, +-value in value "
                 "mode -- against partners with digits just below the rounding place, 3 styles, n in 1..6, always run) and a wild stream outside the property's domain "
                 "(negative uncertainty, 1e+-15, n <= 9, <= 14 digits). The printed text is parsed to (mantissa integers, decimals, "
